@@ -65,11 +65,14 @@ fn gen_model(ch: &mut Ch, params: &[wasmparser::ValType], results: &[wasmparser:
 }
 
 /// Emit the body for `model` through the builder.
-fn build_body(body: &mut InstrSeqBuilder, args: &[LocalId], model: &[RModel], param_types: &[ValType]) {
-    // read every parameter once (a replacement that mixes up its argument
-    // locals must not validate / behave)
-    for a in args {
-        body.local_get(*a).drop();
+fn build_body(body: &mut InstrSeqBuilder, args: &[LocalId], model: &[RModel], param_types: &[ValType], read_mask: u64) {
+    // read the parameters selected by `read_mask` once (a replacement that
+    // mixes up its argument locals must not validate / behave); half of the
+    // bodies read all of them, the others leave some parameters unused
+    for (i, a) in args.iter().enumerate() {
+        if read_mask >> (i % 64) & 1 == 1 {
+            body.local_get(*a).drop();
+        }
     }
     for m in model {
         match m {
@@ -223,6 +226,7 @@ pub fn check(_ctx: &Ctx, input: &Input) -> CaseResult {
         let pos = ch.below(da.imp_funcs.len()) as u32;
         let ft = &im.types[im.func_types[pos as usize] as usize];
         let model = gen_model(&mut ch, &ft.params, &ft.results);
+        let read_mask = if ch.bool() { u64::MAX } else { ch.u64() };
         let param_types: Vec<ValType> = ft.params.iter().map(|t| vt(*t)).collect();
         let shared_id = std::sync::Arc::new(std::sync::Mutex::new(None));
         let sid = shared_id.clone();
@@ -242,7 +246,7 @@ pub fn check(_ctx: &Ctx, input: &Input) -> CaseResult {
         let model2 = model.clone();
         let pt = param_types.clone();
         let r = guard("replace_imported_func", || {
-            m.replace_imported_func(fid, |(body, args)| build_body(body, args, &model2, &pt))
+            m.replace_imported_func(fid, |(body, args)| build_body(body, args, &model2, &pt, read_mask))
         })?;
         let new_id = match r {
             Ok(id) => id,
@@ -326,12 +330,13 @@ pub fn check(_ctx: &Ctx, input: &Input) -> CaseResult {
             }
         }
     } else {
-        // ---- (b) replace an exported (local) function ----
+        // ---- (b) replace an exported function (a re-exported import is
+        // refused today; if it is ever accepted it is judged like any other) ----
         let cands: Vec<usize> = da
             .exports
             .iter()
             .enumerate()
-            .filter(|(_, e)| e.kind == ExtKind::Func && e.index >= da.imp_funcs.len() as u32)
+            .filter(|(_, e)| e.kind == ExtKind::Func)
             .map(|(i, _)| i)
             .collect();
         if cands.is_empty() {
@@ -345,6 +350,7 @@ pub fn check(_ctx: &Ctx, input: &Input) -> CaseResult {
         let ename = da.exports[first_export].name.clone();
         let ft = &im.types[im.func_types[target as usize] as usize];
         let model = gen_model(&mut ch, &ft.params, &ft.results);
+        let read_mask = if ch.bool() { u64::MAX } else { ch.u64() };
         let param_types: Vec<ValType> = ft.params.iter().map(|t| vt(*t)).collect();
         let shared_id = std::sync::Arc::new(std::sync::Mutex::new(None));
         let sid = shared_id.clone();
@@ -364,8 +370,15 @@ pub fn check(_ctx: &Ctx, input: &Input) -> CaseResult {
         let model2 = model.clone();
         let pt = param_types.clone();
         let r = guard("replace_exported_func", || {
-            m.replace_exported_func(fid, |(body, args)| build_body(body, args, &model2, &pt))
+            m.replace_exported_func(fid, |(body, args)| build_body(body, args, &model2, &pt, read_mask))
         })?;
+        if r.is_err() && target < da.imp_funcs.len() as u32 {
+            out.label("re-exported-import:replacement-refused");
+            return Ok(out);
+        }
+        if target < da.imp_funcs.len() as u32 {
+            out.label("re-exported-import:replacement-accepted");
+        }
         if let Err(e) = r {
             return Err(Failure::new(
                 "replace_exported_func-refused",
@@ -392,6 +405,30 @@ pub fn check(_ctx: &Ctx, input: &Input) -> CaseResult {
         }
         if da.start.is_some() != db.start.is_some() {
             return Err(Failure::new("export-replacement:start-changed", origin));
+        }
+        // the original function is still emitted: its debug name stays with it
+        if let (Ok(na), Ok(nb)) = (crate::names::decode_names(&bytes), crate::names::decode_names(&edited)) {
+            if let Some(n) = na.funcs.get(&target) {
+                let unique = na.funcs.values().filter(|x| *x == n).count() == 1;
+                let new_target = db.exports.iter().find(|e| e.kind == ExtKind::Func && e.name == ename).map(|e| e.index);
+                if unique {
+                    if let Some(j) = new_target {
+                        if nb.funcs.get(&j) == Some(n) {
+                            return Err(Failure::new(
+                                "export-replacement:name-moved-to-the-replacement",
+                                format!("input function {} is named {:?}; after replacing export {:?} that name sits on the new function {} [{}]", target, n, ename, j, origin),
+                            ));
+                        }
+                    }
+                    if !nb.funcs.values().any(|x| x == n) {
+                        return Err(Failure::new(
+                            "export-replacement:original-function-lost-its-name",
+                            format!("input function {} is named {:?}; it is still emitted after replacing export {:?} but no function carries that name [{}]", target, n, ename, origin),
+                        ));
+                    }
+                    out.label("replaced-function-had-a-name");
+                }
+            }
         }
         // original run skips the calls to the replaced export
         let script_a: Vec<exec::Call> = script.iter().filter(|c| c.export != ename).cloned().collect();
